@@ -138,3 +138,66 @@ Qed.
 (* ---- capabilities ---- *)
 Example ex_caps : required_caps ok_mods = [CWriteFs; CNet; CExecCode].
 Proof. reflexivity. Qed.
+
+(* ---- raw values that claim a label of their own (ApprovalToken(integrity=UNTRUSTED), look-alikes) ---- *)
+(* as an external input on an (Approval, Trusted) port and as a handler output on such a port:
+   not a TypedValue, so it is given exactly the port's label *)
+Definition gate := mkModule [(DApproval, Trusted)] [(DApproval, Trusted)] [CMoney].
+Example ex_raw_claim :
+  fst (execute [gate] [] (hs [HSRet [(0%nat, RawClaim (Some DText) (Some Validated) 7)]]) true
+               [(0%nat, [(0%nat, RawClaim None (Some Untrusted) 5)])])
+  = Report [0%nat] [(0%nat, [Some (mkTV DApproval Trusted 5)], [mkTV DApproval Trusted 12])].
+Proof. reflexivity. Qed.
+
+(* ---- invocation order in an execution that raises: m1, then m2 (whose output is mislabelled) ---- *)
+Example ex_topological_in_failing_run :
+  let handlers := hs [HSNone; good_h; HSRet [(0%nat, Lab (mkTV DText Untrusted 10))]] in
+  exists r1 r2,
+    execute ok_mods (build ok_mods ok_attempts) handlers true [] = (Raised EOutInteg, [(1%nat, r1); (2%nat, r2)]) /\
+    In (1, 1, 2, 0)%nat (build ok_mods ok_attempts).
+Proof. eexists. eexists. split; [vm_compute; reflexivity|]. cbn. auto. Qed.
+
+(* ---- one executor over time ---- *)
+(* execute fails (mislabelled output of m1, after nothing was delivered), the handler is replaced,
+   execute succeeds in the order m1, m2, m0 exactly as a fresh executor would; then an execution
+   with a handler that raises; a new executor over the same diagram has no handler for m1 *)
+Definition h_of (s : hscript) : handler :=
+  match interp_h s with Some h => h | None => fun _ => HRaise end.
+Definition hist_ops : list xop :=
+  [XExec [] true; XReg 1%nat (h_of good_h); XReg 7%nat (h_of good_h); XExec [] false;
+   XReg 2%nat (h_of HSRaise); XExec [] true; XNew; XExec [] true].
+Example ex_history :
+  let hs0 := hs [HSNone; bad_h; HSRet [(0%nat, Raw 10)]] in
+  map (fun e => match e with
+                | EvReg ok => (if ok then 100 else 101, [])
+                | EvNew => (102, [])
+                | EvExec _ _ _ (Report order _, calls) => (0, map fst calls)
+                | EvExec _ _ _ (Raised e, calls) => (err_code e, map fst calls)
+                | EvExec _ _ _ (OutOfFuel, calls) => (-1, map fst calls)
+                end) (run_ops ok_mods (build ok_mods ok_attempts) hs0 hist_ops)
+  = [(1, [1%nat]); (100, []); (101, []); (0, [1; 2]%nat); (100, []); (20, [1; 2]%nat); (102, []); (1, [])].
+Proof. vm_compute. reflexivity. Qed.
+
+(* external inputs differ between executions: what an earlier execution was given does not count later *)
+Example ex_history_external :
+  map (fun e => match e with
+                | EvExec _ _ _ (Report order _, _) => 0
+                | EvExec _ _ _ (Raised e, _) => match e with EMissingSrc => 7 | EInInteg => 4 | _ => 1 end
+                | _ => -1
+                end)
+      (run_ops [snk2] [] (hs [])
+               [XExec [(0%nat, [(0%nat, Raw 1); (1%nat, Lab (mkTV DText Validated 2))])] true;
+                XExec [(0%nat, [(1%nat, Raw 3); (0%nat, Lab (mkTV DText Untrusted 2))])] true;   (* fails after port 1 was stored *)
+                XExec [(0%nat, [(0%nat, Raw 1)])] true;                                          (* port 1 has no source now *)
+                XExec [] true])
+  = [0; 4; 7; 7].
+Proof. vm_compute. reflexivity. Qed.
+
+(* ---- a wired input port that is also given a value from outside: m0 starts at once, the wire's delivery raises ---- *)
+Example ex_wire_and_external :
+  In (2, 0, 0, 0)%nat (build ok_mods ok_attempts) /\
+  ext_feeds [(0%nat, [(0%nat, Raw 3)])] 0 0 /\
+  fst (execute ok_mods (build ok_mods ok_attempts) ok_hs true [(0%nat, [(0%nat, Raw 3)])]) = Raised EMultiVal.
+Proof.
+  split; [cbn; auto|]. split; [|reflexivity]. exists [(0%nat, Raw 3)], (Raw 3). cbn. auto.
+Qed.
